@@ -657,7 +657,7 @@ class FnCtx:
             args = ks[1:]
             if cal.get('kind') == 'CXXPseudoDestructorExpr':
                 return '((void)0)'      # destructor of a scalar: no effect
-            if cal.get('kind') != 'DeclRefExpr':
+            if cal.get('kind') != 'DeclRefExpr' or cal['referencedDecl'].get('kind') not in ('FunctionDecl', 'CXXMethodDecl'):
                 # call through a function pointer / closure value
                 fp = self.ex(ks[0])
                 al = self.call_args(args, None, n)
